@@ -254,6 +254,42 @@ def _every_bond_record_is_a_bond(V):
              z3.BoolVal(all(len(m_.fields["_atoms"].items) == 2 and len(m_.fields["_bonds"].items) == 1 for m_ in ms)))
 
 
+def _strict_open(fmt):
+    def body(V):
+        """damage may also be a destroyed BYTE: a file that is not valid text must be rejected by the decoder, i.e. the readers open their
+        files with the default strict error handling (errors='ignore' / 'replace' would silently drop or alter characters of a token)"""
+        I, st = V.I, V.st
+        T.use(st)
+        e = ensemble(V)
+        w = V.method(e, f"dumps_{fmt}", [])
+        V.ensure("open/writer-returns", z3.BoolVal(w.returned))
+        if not w.returned:
+            return
+        clsname = V.choose(["Molecule", "ConformerEnsemble"], "class")
+        entry = V.choose(["load", "load_all"], "entry") if clsname == "Molecule" else "load"
+        st.ghost["open_hook"] = lambda I_, path, mode: I_.call(I_.ext_models["io.StringIO"], [w.value], {})
+        V.witness(lambda ev: {"op": "undecodable-byte", "format": fmt, "signature": "undecodable-byte"})
+        V.cover()
+        n0 = len(st.trace)
+        try:
+            r = I.call(I.getattr_(V.cls(M.CLS[clsname]), f"{entry}_{fmt}"), [V.sym("file_name", "str")], {})
+            if entry == "load_all":
+                list(I.iterate(r))
+        except PyExc:
+            pass
+        opens = [e_ for e_ in st.trace[n0:] if e_[0] == "open-options"]
+        V.ensure("open/the-file-is-opened", z3.BoolVal(len(opens) >= 1))
+        V.ensure("open/text-is-decoded-strictly-(an-undecodable-byte-is-an-error)",
+                 z3.BoolVal(all(e_[3].get("errors") in (None, "strict") for e_ in opens)))
+    return body
+
+
+P.unit(f"{M.CLS['CartesianGeometry']}.load_xyz", name="xyz files are opened with strict text decoding (a destroyed byte is rejected, not dropped)",
+       functions=[f"{M.CLS['CartesianGeometry']}.load_xyz", f"{M.CLS['CartesianGeometry']}.load_all_xyz", f"{M.CLS['ConformerEnsemble']}.load_xyz"])(_strict_open("xyz"))
+P.unit(f"{M.CLS['Structure']}.load_mol2", name="mol2 files are opened with strict text decoding (a destroyed byte is rejected, not dropped)",
+       functions=[f"{M.CLS['Structure']}.load_mol2", f"{M.CLS['Structure']}.load_all_mol2", f"{M.CLS['ConformerEnsemble']}.load_mol2"])(_strict_open("mol2"))
+
+
 @P.unit("molli.parsing.mol2:read_mol2", name="mol2 with attribute records (UNITY_ATOM_ATTR / UNITY_BOND_ATTR): every truncation is rejected or complete, and the reader terminates",
         functions=["molli.parsing.mol2:read_mol2", "molli.parsing.mol2:LineReader.__next__", "molli.parsing.mol2:LineReader.next_noexcept"])
 def _mol2_attr(V):
@@ -298,3 +334,21 @@ def _mol2_attr(V):
     hdr = lines.index("@<TRIPOS>UNITY_ATOM_ATTR\n")
     has_note = all("note" in m_.fields["_atoms"].items[1].fields["attrib"].keys for m_ in out.value.items if len(m_.fields["_atoms"].items) == 2)
     V.ensure("attr/returned-molecule-has-the-attributes-of-the-text", z3.BoolVal(bool(has_note) or k <= hdr))
+
+
+# ------------------------------------------------------------------------------------------ bounded stand-in (real readers, CPython)
+P.bounded_in_quick = True       # ~20 s: also runs in the quick tier (reported as bounded, never as proved)
+
+
+@P.bounded_standin("the real readers on a bundled 7-conformer file damaged at every line, under a wall-clock limit (termination; complete molecules; same content)",
+                   "pentane_confs (mol2 and xyz): truncation / deletion / duplication at every line, cuts at token boundaries in the first two molecules, "
+                   "single-token corruption of the first molecule's records incl. tokens of 40-5000 characters; 20 s limit per call; ~7700 texts")
+def _bounded(seed):
+    import subprocess, json, os
+    here = os.path.dirname(os.path.dirname(os.path.abspath(__file__)))
+    r = subprocess.run(["/venv/bin/python", os.path.join(here, "replay", "C10.py"), "--bounded", str(seed)], capture_output=True, text=True, timeout=3000,
+                       env={**os.environ, "PYTHONPATH": os.environ.get("PYVC_REPO", "/repo")})
+    try:
+        return json.loads(r.stdout.strip().splitlines()[-1])
+    except Exception:
+        return {"error": (r.stdout + r.stderr)[-500:]}
